@@ -27,29 +27,36 @@ void expect_equiv(eng::Ctx& ctx, const std::string& sig, const ref::NFA& got, co
 // Chains: operations applied to the RESULTS of earlier operations (and repeatedly to the same operand object).
 // Every handle carries the language it must have, computed by the reference operations on the models of its
 // operands - never from what the library returned - so an error made on a derived operand cannot hide.
-struct FH { std::unique_ptr<ExplicitFiniteAut> aut; ref::NFA model; int fam; };   // fam: numbering family 0 = A, 1 = B, 2 = B' (disjoint from A), 3 = mixed
+struct FH { std::unique_ptr<ExplicitFiniteAut> aut; ref::NFA model; int fam; bool exact = false; };   // exact: the model uses the library's state numbers (derived handles carry a renumbered, trimmed model)   // fam: numbering family 0 = A, 1 = B, 2 = B' (disjoint from A), 3 = mixed
 
 void chain(eng::Ctx& ctx, const eng::Raw& raw, const gen::NfaPairCase& c, const ExplicitFiniteAut& a, const ExplicitFiniteAut& b,
 	const ref::NFA& VA, const ref::NFA& VB)
 {
 	std::vector<FH> pool;
 	std::ostringstream log;
-	auto add = [&](ExplicitFiniteAut&& x, const ref::NFA& m, int fam) { pool.push_back(FH{std::unique_ptr<ExplicitFiniteAut>(new ExplicitFiniteAut(std::move(x))), m, fam}); };
+	auto add = [&](ExplicitFiniteAut&& x, const ref::NFA& m, int fam, bool exact = false) { pool.push_back(FH{std::unique_ptr<ExplicitFiniteAut>(new ExplicitFiniteAut(std::move(x))), m, fam, exact}); };
 	{
 		eng::LibSection ls(ctx, "fa-chain:setup");
-		add(ExplicitFiniteAut(a), VA, 0);
-		add(ExplicitFiniteAut(b), VB, 1);
+		add(ExplicitFiniteAut(a), VA, 0, true);
+		add(ExplicitFiniteAut(b), VB, 1, true);
 		gen::Numbering nb2 = gen::make_numbering(c.header[5], c.nB, false,
 			c.numA.tab.empty() ? 0 : *std::max_element(c.numA.tab.begin(), c.numA.tab.end()) + 1);
-		add(libfa::build(c.B, nb2), libfa::lib_view(c.B, nb2), 2);
+		add(libfa::build(c.B, nb2), libfa::lib_view(c.B, nb2), 2, true);
 	}
 	const size_t nsteps = std::min<size_t>(raw.size() > 1 ? raw.size() - 1 : 0, 4 + c.header[6] % 7);
 	bool derivedBinary = false, repeatedLeft = false;
+	size_t lastCopyOf = SIZE_MAX;
 	std::set<size_t> usedAsLeft;
 	for (size_t k = 0; k < nsteps; ++k) {
 		const eng::Rec& r = raw[raw.size() - 1 - k];
-		uint32_t op = r[7] % 9;
+		uint32_t op = r[7] % 10;
 		size_t i = r[6] % pool.size(), j = (r[6] / 16) % pool.size();
+		if (op == 9 && !pool[i].exact) i = r[6] % 3;      // the three initial handles always are
+		if (lastCopyOf != SIZE_MAX && (op == 2 || op == 8 || op == 0) && (r[5] % 4) != 0) {
+			// right after a copy step most binary operations pair the copy with its original (either order)
+			i = pool.size() - 1; j = lastCopyOf;
+			if ((r[5] / 4) % 2) std::swap(i, j);
+		}
 		if (op == 1) {
 			// UnionDisjointStates needs disjoint state sets: left from the A family, right from the B' family
 			std::vector<size_t> l, rr;
@@ -59,7 +66,7 @@ void chain(eng::Ctx& ctx, const eng::Raw& raw, const gen::NfaPairCase& c, const 
 			if ((r[6] / 256) % 2) std::swap(i, j);
 		}
 		if (pool[i].model.states().size() > 24 || pool[j].model.states().size() > 24) continue;
-		static const char* names[] = {"Union", "UnionDisjointStates", "Intersection", "Reverse", "RemoveUnreachableStates", "RemoveUselessStates", "GetCandidateTree", "copy", "Intersection"};
+		static const char* names[] = {"Union", "UnionDisjointStates", "Intersection", "Reverse", "RemoveUnreachableStates", "RemoveUselessStates", "GetCandidateTree", "copy", "Intersection", "copy+SetStateFinal/Start"};
 		const std::string name = names[op];
 		log << name << "(h" << i << (op <= 2 || op == 8 ? ",h" + std::to_string(j) : "") << ")->h" << pool.size() << " ";
 		ExplicitFiniteAut res;
@@ -75,6 +82,21 @@ void chain(eng::Ctx& ctx, const eng::Raw& raw, const gen::NfaPairCase& c, const 
 				case 4: res = pool[i].aut->RemoveUnreachableStates(); want = pool[i].model; fam = pool[i].fam; break;
 				case 5: res = pool[i].aut->RemoveUselessStates(); want = pool[i].model; fam = pool[i].fam; break;
 				case 6: res = pool[i].aut->GetCandidateTree(); fam = pool[i].fam; break;
+				case 9: {
+					// a copy that shares the transitions of its original but gets a further final or start state: operations
+					// between the two must follow the values, not the sharing
+					res = ExplicitFiniteAut(*pool[i].aut);
+					want = pool[i].model;
+					fam = pool[i].fam;
+					const std::set<int> st = want.states();
+					if (!st.empty() && pool[i].exact) {
+						auto it = st.begin();
+						std::advance(it, static_cast<long>((r[5] / 4) % st.size()));
+						if (r[5] % 2) { res.SetStateFinal(static_cast<VATA::AutBase::StateType>(*it)); want.finals.insert(*it); }
+						else { res.SetStateStart(static_cast<VATA::AutBase::StateType>(*it), libfa::sym(res, "x")); want.starts.insert(*it); }
+					}
+					break;
+				}
 				default: res = ExplicitFiniteAut(*pool[i].aut); want = pool[i].model; fam = pool[i].fam; break;
 			}
 			got = libfa::read(res);
@@ -98,7 +120,9 @@ void chain(eng::Ctx& ctx, const eng::Raw& raw, const gen::NfaPairCase& c, const 
 		}
 		ctx.count("chain_steps_checked");
 		// keep the model small: continue with the reference language in trimmed form
-		add(std::move(res), ref::nfa_trimmed(want), fam);
+		// (the model of a modified copy keeps its state names: the next step may address them)
+		add(std::move(res), (op == 9 || op == 7) ? want : ref::nfa_trimmed(want), fam, (op == 9 || op == 7) && pool[i].exact);
+		lastCopyOf = (op == 9 || op == 7) ? i : SIZE_MAX;
 		if (pool.size() > 9) break;
 	}
 	if (derivedBinary) ctx.tag("chain:binary-op-on-derived-operand");
